@@ -21,9 +21,10 @@ package data_test
 //   Oracle: set model (host in list or list empty; some tag list whose tags
 //   are all carried, "" standing for "untagged"; every filter path is among
 //   the snapshot's paths) => FindAll yields exactly the matching IDs, once.
-// Part 2 (latest): every sequence (= list order) of <= 3 (quick) / <= 4
-//   (thorough) snapshots over 24 types = hosts {h1,h2} x tags {none,[a]} x
-//   paths {[/a],[/a,/b]} x times {t0,t1,t2} (ties arise from repeated times),
+// Part 2 (latest): every sequence (= list order) of <= 3 snapshots over 24
+//   types = hosts {h1,h2} x tags {none,[a]} x paths {[/a],[/a,/b]} x times
+//   {t0,t1,t2} (ties arise from repeated times); thorough: additionally every
+//   sequence of 4 snapshots over the 12 types with paths [/a,/b];
 //   12 filters x 6 time limits {none, before all, t0, t1, between t1 and t2,
 //   t2}.  Oracle (two-sided for ties): the result is one of the matching
 //   snapshots with time <= limit whose time is maximal, or ErrNoSnapshotFound
@@ -191,7 +192,7 @@ func TestVerif_C24(t *testing.T) {
 	r := vh.Start(t, "C24")
 	defer r.Finish()
 	r.Rule("part 1: every filter (616) x the universe repo and every repo of <= 1 (quick) / <= 2 (thorough) snapshot types through FindAll, non-trivial = filter has an active component and the repo is non-empty; " +
-		"part 2: every list order of <= 3 (quick) / <= 4 (thorough) snapshots over 24 types x 12 filters x 6 limits through FindLatest and FindAll(latest), non-trivial = a snapshot is found and (some snapshot is excluded by filter/limit or the maximum is tied); " +
+		"part 2: every list order of <= 3 snapshots over 24 types (thorough: + every list order of 4 snapshots over 12 types) x 12 filters x 6 limits through FindLatest and FindAll(latest), non-trivial = a snapshot is found and (some snapshot is excluded by filter/limit or the maximum is tied); " +
 		"part 3: every multiset of <= 4 snapshots over 36 types x 2 input orders x 8 group-by through GroupSnapshots, non-trivial = >= 2 snapshots and >= 1 grouping key")
 	r.Assume("in-memory Lister/LoaderUnpacked with Connections()=1 serves snapshot JSON in harness-chosen order (trusted, 30 lines)",
 		"timestamps all UTC; tag lists mixing \"\" with other tags, duplicate tags/paths, relative filter paths are outside the oracle (documentation silent)")
@@ -342,10 +343,11 @@ func verifC24Part2(ctx context.Context, t *testing.T, r *vh.Run) {
 			}
 		}
 	}
-	maxLen := vh.Pick(r, 3, 4)
+	maxLen := 3
+	slots := 4
 	docs := make([][]verifC24Doc, len(types))
 	for i, ty := range types {
-		for s := 0; s < maxLen; s++ {
+		for s := 0; s < slots; s++ {
 			docs[i] = append(docs[i], verifC24MakeDoc(t, ty, s))
 		}
 	}
@@ -503,6 +505,33 @@ func verifC24Part2(ctx context.Context, t *testing.T, r *vh.Run) {
 				continue
 			}
 			rec(ck, []int{a, b})
+		}
+	}
+	if !r.Thorough() {
+		return
+	}
+	// thorough: additionally every list order of exactly 4 snapshots over the 12 types
+	// with the path list [/a,/b] (the full 24^4 space costs ~45 CPU-minutes)
+	var sub []int
+	for ti, ty := range types {
+		if len(ty.Paths) == 2 {
+			sub = append(sub, ti)
+		}
+	}
+	for _, a := range sub {
+		for _, b := range sub {
+			ck := fmt.Sprintf("latest4|%d,%d", a, b)
+			if !r.Case(ck) {
+				continue
+			}
+			for _, c := range sub {
+				for _, d := range sub {
+					if r.Expired() {
+						return
+					}
+					runSeq(ck, []int{a, b, c, d})
+				}
+			}
 		}
 	}
 }
